@@ -61,7 +61,7 @@ def _tables(ev):
 
 def _disasm(ev):
     for i, e in enumerate(ev):
-        if e.get("ev") == "disasm" and e.get("st") == "ok" and len(e["lines"]) >= 6:
+        if e.get("ev") == "disasm" and e.get("st") == "ok" and len(e["lines"]) >= e.get("nh", 4) + 2:
             e["lines"].pop(); e["tokens"].pop()
             return i, "the last line of a disassembly was dropped"
     return None
